@@ -15,7 +15,7 @@ RULE = ("modules of ct_add_test / ct_add_section / add_test commands with NAME a
         "entry name, EXPECTFAIL in the signature iff present, add_test signature = all arguments but the NAME pair in "
         "order, the matching do-not-call warning, sections as own entries in source order. Non-trivial: NAME not "
         "first, or an argument equal to the name, or a keyword-substring argument; distinct by SHA-1 of the case")
-RULE_MORE = 'large modules as in C01 (mostly documented, so that hundreds of documented commands occur in one file).'
+RULE_MORE = "large modules as in C01 (mostly documented, so that hundreds of documented commands occur in one file). Later: NAME after up to 1000 long arguments; names with '%' and decomposed characters."
 ASSUMPTIONS = ["every test command carries exactly one NAME <value> pair; argument values never equal NAME or EXPECTFAIL",
                "declarations are directly followed by their undocumented implementing definition"]
 BUDGET = {"quick": {"shards": 8, "examples": 250}, "thorough": {"shards": 16, "examples": 4000}}
